@@ -2,7 +2,9 @@ import OdxVerif.Common.Sexp
 /-! Executable model of variant identification: `odxtools/variantmatcher.py` (`VariantMatcher`),
     `matchingparameter.py` (`MatchingParameter.matches`), `matchingbasevariantparameter.py`,
     `ecuvariantpattern.py`, `basevariantpattern.py`. Core Lean only. The model follows the code *with*
-    `fixes/c14-empty-response.patch` and `fixes/c14-cache-key-addressing.patch` applied.
+    `fixes/c14-empty-response.patch`, `fixes/c14-cache-key-addressing.patch` and
+    `fixes/c14-cache-bytearray-request.patch` applied (`fixes/c14-float-expected-value.patch` concerns float
+    leaves, which are outside the model).
 
     Python ↔ model
     * `VariantMatcher.req_resp_cache / _recent_ident_response / _state / _matching_variant` ↔ `MState`
